@@ -42,8 +42,10 @@ def run(d, tier="quick", extra=()):
         return res
     finally:
         shutil.rmtree(scratch, ignore_errors=True)
-        for f in ("go.alt.mod", "go.alt.sum"):
-            try: os.remove(os.path.join(ROOT, "harness", f))
+        import glob
+        tag = "".join(ch if ch.isalnum() else "_" for ch in scratch)[-40:]
+        for f in glob.glob(os.path.join(ROOT, "harness", "go-alt-%s.*" % tag)) + glob.glob(os.path.join(ROOT, ".bin", "*-alt-%s*" % tag)):
+            try: os.remove(f)
             except OSError: pass
 
 def main(a):
